@@ -95,7 +95,7 @@ func (s c19Spec) Seq() string {
 }
 
 func c19KeyText(s c19Spec) string {
-	return fmt.Sprintf("n%d:%s", len(s), strings.ReplaceAll(strings.ReplaceAll(s.Text(), "; ", ";"), " ", "_"))
+	return strings.ReplaceAll(strings.ReplaceAll(s.Text(), "; ", ";"), " ", "_")
 }
 
 // c19ParseText is the inverse of Text for specs over the alphabet (replay).
@@ -168,10 +168,10 @@ func c19Enumerate(max int) []c19Spec {
 type c19Lay struct{ Off, Size, Align int64 }
 
 type c19LeafLay struct {
-	Name string // "f1" or "f1.a"
-	Type string
-	c19Lay       // Off is absolute
-	BumpOK bool  // zero-size and last field of a struct of non-zero size: the compiler pads one byte here
+	Name   string // "f1" or "f1.a"
+	Type   string
+	c19Lay      // Off is absolute
+	BumpOK bool // zero-size and last field of a struct of non-zero size: the compiler pads one byte here
 	Field  int
 }
 
@@ -550,45 +550,85 @@ func (h *c19H) closeServers() {
 	}
 }
 
-// optimize runs the real main() of structlayout-optimize on one input. died = the program
-// terminated itself (log.Fatal, panic) instead of answering.
-func (h *c19H) optimize(in []byte, recurse bool) (out []st.Field, errMsg string, infra error) {
-	s, err := h.getServer()
-	if err != nil {
-		return nil, "", err
-	}
-	flags := "-json"
+type c19Req struct {
+	in      []byte
+	recurse bool
+}
+
+type c19Resp struct {
+	out    []st.Field
+	errMsg string // the program terminated (log.Fatal, panic) or wrote something unreadable
+}
+
+func c19Flags(recurse bool) string {
 	if recurse {
-		flags += " -r"
+		return "-json -r"
 	}
-	s.in.WriteString(flags)
-	s.in.WriteByte('\t')
-	s.in.Write(bytes.TrimSpace(in))
-	s.in.WriteByte('\n')
-	s.in.Flush()
-	hdr, err := s.out.ReadString('\n')
-	if err != nil {
-		s.close()
-		return nil, fmt.Sprintf("structlayout-optimize %s terminated: %s", flags, c19Tail(s.stderr.Bytes())), nil
+	return "-json"
+}
+
+// optimizeMany runs the real main() of structlayout-optimize once per request; requests are
+// pipelined to one server process. When the program terminates instead of answering, the
+// request it was working on gets the error and the rest goes to a fresh process.
+func (h *c19H) optimizeMany(reqs []c19Req) ([]c19Resp, error) {
+	resps := make([]c19Resp, len(reqs))
+	i := 0
+	for i < len(reqs) {
+		s, err := h.getServer()
+		if err != nil {
+			return nil, err
+		}
+		pending := reqs[i:]
+		wdone := make(chan struct{})
+		go func() {
+			defer close(wdone)
+			for _, r := range pending {
+				s.in.WriteString(c19Flags(r.recurse))
+				s.in.WriteByte('\t')
+				s.in.Write(bytes.TrimSpace(r.in))
+				if s.in.WriteByte('\n') != nil {
+					return
+				}
+			}
+			s.in.Flush()
+		}()
+		died := false
+		for i < len(reqs) {
+			var data []byte
+			var rerr error
+			for {
+				line, err := s.out.ReadBytes('\n')
+				if err != nil {
+					rerr = err
+					break
+				}
+				if string(line) == "#\n" {
+					break
+				}
+				data = append(data, line...)
+			}
+			if rerr != nil {
+				s.inC.Close()
+				s.cmd.Wait()
+				<-wdone
+				resps[i].errMsg = fmt.Sprintf("structlayout-optimize %s terminated without finishing: %s %s", c19Flags(reqs[i].recurse), c19Tail(data), c19Tail(s.stderr.Bytes()))
+				i++
+				died = true
+				break
+			}
+			if len(bytes.TrimSpace(data)) != 0 {
+				if err := json.Unmarshal(data, &resps[i].out); err != nil {
+					resps[i].errMsg = fmt.Sprintf("structlayout-optimize %s wrote something that is not a JSON field list: %v: %s", c19Flags(reqs[i].recurse), err, c19Tail(data))
+				}
+			}
+			i++
+		}
+		if !died {
+			<-wdone
+			h.putServer(s)
+		}
 	}
-	n, err := strconv.Atoi(strings.TrimSpace(hdr))
-	if err != nil {
-		s.close()
-		return nil, "", fmt.Errorf("optserve protocol: %q", hdr)
-	}
-	data := make([]byte, n)
-	if _, err := io.ReadFull(s.out, data); err != nil {
-		s.close()
-		return nil, "", fmt.Errorf("optserve protocol: %v", err)
-	}
-	h.putServer(s)
-	if len(bytes.TrimSpace(data)) == 0 {
-		return nil, "", nil
-	}
-	if err := json.Unmarshal(data, &out); err != nil {
-		return nil, fmt.Sprintf("structlayout-optimize %s wrote something that is not a JSON field list: %v: %s", flags, err, c19Tail(data)), nil
-	}
-	return out, "", nil
+	return resps, nil
 }
 
 type c19Item struct {
@@ -717,6 +757,10 @@ type c19H struct {
 	states, transitions, validated atomic.Int64
 	dirSeq                         atomic.Int64
 
+	vmu      sync.Mutex
+	vios     []c19Vio
+	vioCount map[string]int
+
 	mu      sync.Mutex
 	known   map[string]int64 // field type sequence -> compiler size (from the layout phase)
 	backs   []*c19Back
@@ -734,15 +778,35 @@ func (h *c19H) newDir(kind string) string {
 	return filepath.Join(h.scratch, fmt.Sprintf("%s%d", kind, h.dirSeq.Add(1)))
 }
 
+// violate remembers a violation; finish() hands the smallest ones (fewest fields first) to vx,
+// which keeps a bounded number, so that minimal counterexamples are the ones reported.
 func (h *c19H) violate(class string, spec c19Spec, msg string) {
 	h.res.Count("violations_"+class, 1)
-	h.res.Violate(class+":"+c19KeyText(spec), fmt.Sprintf("%s: %s", spec.Text(), msg), map[string]any{"struct": spec.Text(), "class": class})
+	k := fmt.Sprintf("%s/%d", class, len(spec))
+	h.vmu.Lock()
+	defer h.vmu.Unlock()
+	h.vioCount[k]++
+	if h.vioCount[k] > 30 {
+		return
+	}
+	h.vios = append(h.vios, c19Vio{n: len(spec), class: class,
+		key:  fmt.Sprintf("n%d:%s:%s", len(spec), class, c19KeyText(spec)),
+		msg:  fmt.Sprintf("%s: %s", spec.Text(), msg),
+		data: map[string]any{"struct": spec.Text(), "class": class}})
 }
 
-func c19ParallelFor(n int, f func(i int)) {
+type c19Vio struct {
+	n          int
+	class, key string
+	msg        string
+	data       any
+}
+
+func c19ParallelFor(n int, f func(i int)) { c19ParallelForN(n, runtime.GOMAXPROCS(0), f) }
+
+func c19ParallelForN(n, w int, f func(i int)) {
 	var wg sync.WaitGroup
 	var next atomic.Int64
-	w := runtime.GOMAXPROCS(0)
 	if w > n {
 		w = n
 	}
@@ -861,31 +925,41 @@ func (h *c19H) optimizeBatch(b *c19Batch) {
 	res := h.res
 	var runs, shrunk, skipped atomic.Int64
 	backs := make([][]*c19Back, len(b.specs))
-	c19ParallelFor(len(b.specs), func(i int) {
-		if !b.ok[i] {
-			skipped.Add(1)
+	const chunk = 48
+	nchunks := (len(b.specs) + chunk - 1) / chunk
+	c19ParallelFor(nchunks, func(ci int) {
+		lo, hi := ci*chunk, min((ci+1)*chunk, len(b.specs))
+		var reqs []c19Req
+		var idx []int
+		for i := lo; i < hi; i++ {
+			if !b.ok[i] {
+				skipped.Add(1)
+				continue
+			}
+			in := c19EncodeJSON(b.inputs[i])
+			reqs = append(reqs, c19Req{in, false}, c19Req{in, true})
+			idx = append(idx, i, i)
+		}
+		resps, err := h.optimizeMany(reqs)
+		if err != nil {
+			res.NotExhaustive("structlayout-optimize server: " + err.Error())
 			return
 		}
-		spec, o := b.specs[i], b.orc[i]
-		in := c19EncodeJSON(b.inputs[i])
-		for _, rec := range []bool{false, true} {
+		for k, rp := range resps {
+			i, rec := idx[k], reqs[k].recurse
+			spec, o := b.specs[i], b.orc[i]
 			class := "opt"
 			if rec {
 				class = "opt-r"
 			}
-			out, em, infra := h.optimize(in, rec)
-			if infra != nil {
-				res.NotExhaustive("structlayout-optimize server: " + infra.Error())
-				continue
-			}
 			runs.Add(1)
-			if em != "" {
-				h.violate(class, spec, em)
+			if rp.errMsg != "" {
+				h.violate(class, spec, rp.errMsg)
 				continue
 			}
-			msg, back, total := c19CheckOptimize(b.named[i].Obj().Name(), spec, o, b.inputs[i], out, rec)
+			msg, back, total := c19CheckOptimize(b.named[i].Obj().Name(), spec, o, b.inputs[i], rp.out, rec)
 			if msg != "" {
-				h.violate(class, spec, fmt.Sprintf("structlayout-optimize%s: %s [input %s output %v]", map[bool]string{true: " -r"}[rec], msg, strings.TrimSpace(string(in)), out))
+				h.violate(class, spec, fmt.Sprintf("structlayout-optimize %s: %s [input %s output %v]", c19Flags(rec), msg, strings.TrimSpace(string(reqs[k].in)), rp.out))
 				continue
 			}
 			if back != nil {
@@ -1005,7 +1079,11 @@ func (h *c19H) binarySample(specs []c19Spec) {
 		return
 	}
 	var done, optDone atomic.Int64
-	c19ParallelFor(len(specs), func(i int) {
+	c19ParallelForN(len(specs), 4, func(i int) {
+		if res.Expired() {
+			res.NotExhaustive("budget exhausted during the structlayout binary sample")
+			return
+		}
 		if len(specs[i]) == 0 {
 			return // the tool prints [] for it; nothing to compare with the compiler
 		}
@@ -1036,11 +1114,12 @@ func (h *c19H) binarySample(specs []c19Spec) {
 		// through the looped main() the exhaustive part uses
 		for _, rec := range []bool{false, true} {
 			o1, e1 := c19RunOptimize(h.binOpt, so.Bytes(), rec)
-			o2, e2, infra := h.optimize(so.Bytes(), rec)
+			rp, infra := h.optimizeMany([]c19Req{{so.Bytes(), rec}})
 			if infra != nil {
 				res.NotExhaustive("structlayout-optimize server: " + infra.Error())
 				continue
 			}
+			o2, e2 := rp[0].out, rp[0].errMsg
 			if (e1 != "") != (e2 != "") || !reflect.DeepEqual(o1, o2) {
 				res.NotExhaustive(fmt.Sprintf("harness: looped main() and the structlayout-optimize binary disagree on %s (-r=%v): %v %q vs %v %q", specs[i].Text(), rec, o1, e1, o2, e2))
 				continue
@@ -1054,6 +1133,16 @@ func (h *c19H) binarySample(specs []c19Spec) {
 }
 
 func (h *c19H) finish() {
+	sort.SliceStable(h.vios, func(i, j int) bool {
+		a, b := h.vios[i], h.vios[j]
+		if a.n != b.n {
+			return a.n < b.n
+		}
+		return a.key < b.key
+	})
+	for _, v := range h.vios {
+		h.res.Violate(v.key, v.msg, v.data)
+	}
 	h.res.States = h.states.Load()
 	h.res.Transitions = h.transitions.Load()
 	h.res.Validated = h.validated.Load()
@@ -1063,7 +1152,7 @@ func TestVerifC19(t *testing.T) {
 	res := vx.New(c19Rule)
 	defer res.Write()
 	h := &c19H{res: res, scratch: vx.ScratchDir(), binOpt: os.Getenv("VERIF_BIN_STRUCTLAYOUT_OPTIMIZE"),
-		binSL: os.Getenv("VERIF_BIN_STRUCTLAYOUT"), known: map[string]int64{}}
+		binSL: os.Getenv("VERIF_BIN_STRUCTLAYOUT"), known: map[string]int64{}, vioCount: map[string]int{}}
 	defer h.finish()
 	if h.binOpt == "" || h.binSL == "" {
 		res.NotExhaustive("VERIF_BIN_STRUCTLAYOUT / VERIF_BIN_STRUCTLAYOUT_OPTIMIZE not set (check.json binaries)")
@@ -1074,13 +1163,24 @@ func TestVerifC19(t *testing.T) {
 		res.NotExhaustive("claims are for amd64 only (gcsizes.ForArch ignores its argument); host is " + runtime.GOARCH)
 		return
 	}
-	res.SetBudget(vx.Pick(80*time.Second, 18*time.Minute))
-	h.pool = make(chan *c19Server, runtime.GOMAXPROCS(0)+4)
-	if err := h.buildServer(); err != nil {
-		res.NotExhaustive(err.Error())
-		return
+	budget := vx.Pick(80*time.Second, 18*time.Minute)
+	if v, err := strconv.Atoi(os.Getenv("VERIF_C19_BUDGET_S")); err == nil && v > 0 {
+		budget = time.Duration(v) * time.Second // development aid on a loaded machine
 	}
+	res.SetBudget(budget)
+	h.pool = make(chan *c19Server, runtime.GOMAXPROCS(0)+4)
 	defer h.closeServers()
+	// the looped structlayout-optimize is built while the first oracle programs compile
+	serverReady := make(chan struct{})
+	var serverErr error
+	go func() { serverErr = h.buildServer(); close(serverReady) }()
+	waitServer := func() bool {
+		<-serverReady
+		if serverErr != nil {
+			res.NotExhaustive(serverErr.Error())
+		}
+		return serverErr == nil
+	}
 
 	if _, raw, ok := vx.Replay(); ok {
 		var c struct {
@@ -1093,6 +1193,9 @@ func TestVerifC19(t *testing.T) {
 		spec, err := c19ParseText(c.Struct)
 		if err != nil {
 			res.NotExhaustive("replay: " + err.Error())
+			return
+		}
+		if !waitServer() {
 			return
 		}
 		if b := h.layoutBatch([]c19Spec{spec}); b != nil {
@@ -1120,6 +1223,36 @@ func TestVerifC19(t *testing.T) {
 	for i := first; i < len(specs); i += batch {
 		batches = append(batches, specs[i:min(i+batch, len(specs))])
 	}
+
+	// a sample through the real binaries (one process each, go/packages loading), concurrently:
+	// 1-field structs, a spread of the rest, and the shapes of DESIGN.md §7 item 7
+	var sample []c19Spec
+	if vx.Thorough() {
+		sample = append(sample, specs[1:1+len(c19Alphabet)]...)
+	} else {
+		for _, i := range []int{8, 14, 19, 20, 21} { // complex64, [0]int64, struct{x [0]int64}, NS, AL
+			sample = append(sample, specs[i])
+		}
+	}
+	extra := vx.Pick(8, 60)
+	step := len(specs) / extra
+	for k, i := 0, 1+len(c19Alphabet)+step/2; i < len(specs) && k < extra; k, i = k+1, i+step {
+		sample = append(sample, specs[i])
+	}
+	for _, txt := range []string{"struct{f0 int8; f1 struct{x [0]int64}; f2 int8}", "struct{f0 int64; f1 NS; f2 int8}", "struct{f0 AL; f1 [2]NS; f2 struct{}}"} {
+		if s, err := c19ParseText(txt); err == nil {
+			sample = append(sample, s)
+		}
+	}
+	sampleDone := make(chan struct{})
+	go func() {
+		defer close(sampleDone)
+		<-serverReady
+		if serverErr == nil {
+			h.binarySample(sample)
+			t.Logf("binary sample done after %v", time.Since(t0))
+		}
+	}()
 
 	// stage 1 (several batches at once): compiler + sizes(); stage 2: optimize, process-parallel
 	type item struct {
@@ -1150,6 +1283,9 @@ func TestVerifC19(t *testing.T) {
 	}
 	go func() { wg.Wait(); close(ch) }()
 	for it := range ch {
+		if !waitServer() {
+			continue
+		}
 		if res.Expired() {
 			res.NotExhaustive(fmt.Sprintf("budget exhausted before structlayout-optimize ran on batch %d", it.idx))
 			continue
@@ -1169,24 +1305,5 @@ func TestVerifC19(t *testing.T) {
 	h.compileBack()
 	t.Logf("compile-back done after %v", time.Since(t0))
 
-	// sample through the real structlayout binary: all 1-field structs plus a spread of the rest
-	var sample []c19Spec
-	sample = append(sample, specs[1:1+len(c19Alphabet)]...)
-	extra := vx.Pick(26, 106)
-	step := len(specs) / extra
-	for i := 1 + len(c19Alphabet) + step/2; i < len(specs) && len(sample) < len(c19Alphabet)+extra; i += step {
-		sample = append(sample, specs[i])
-	}
-	// the shapes of DESIGN.md §7 item 7
-	for _, txt := range []string{"struct{f0 int8; f1 struct{x [0]int64}; f2 int8}", "struct{f0 int64; f1 NS; f2 int8}", "struct{f0 AL; f1 [2]NS; f2 struct{}}"} {
-		if s, err := c19ParseText(txt); err == nil {
-			sample = append(sample, s)
-		}
-	}
-	if !res.Expired() {
-		h.binarySample(sample)
-		t.Logf("binary sample done after %v", time.Since(t0))
-	} else {
-		res.NotExhaustive("budget exhausted before the structlayout binary sample")
-	}
+	<-sampleDone
 }
